@@ -955,7 +955,7 @@ fn gen_size(src: &mut Src) -> TerminalSize {
 fn gen_pools(ctx: &Ctx, src: &mut Src, size: TerminalSize) -> Pools {
     let ppc = size.pixels_per_cell();
     let (ph, pw) = (ppc.height.max(1), ppc.width.max(1));
-    let images = vec![make_image(ph, pw, 10), make_image(ph, 2 * pw, 20), make_image(2 * ph, 2 * pw, 30), make_image(ph, pw, 10)];
+    let images = vec![make_image(ph, pw, 10), make_image(ph, 2 * pw, 20), make_image(2 * ph, 2 * pw, 30), make_image(ph, pw, 10), make_image(2 * ph, pw, 40), make_image(3 * ph, pw, 50)];
     let glyphs = vec![make_glyph(1, 2), make_glyph(2, 2)];
     Pools {
         images,
